@@ -184,6 +184,56 @@ theorem run_refines_aux (key : Bytes) (hk : key.length = 32) (calls : List Call)
       simp only [MAC.run, MAC.step, specRun, specStep, hs]
       rw [ih { m with finalized := true } M ht, ctEq_decide]
 
+/-- the same abstract machine when the caller recovers from panics: the state is unchanged by a panicking call -/
+def specRunAll (key : Bytes) (a : Bytes × Bool) : List Call → List Out
+  | [] => []
+  | c :: cs => (specStep key a c).2 :: specRunAll key (specStep key a c).1 cs
+
+theorem runAll_refines_aux (key : Bytes) (hk : key.length = 32) (calls : List Call) :
+    ∀ (m : MAC) (M : Bytes),
+      Tracks (initMac key).r0 (initMac key).r1 (initMac key).s0 (initMac key).s1 m.mac M →
+      m.runAll calls = specRunAll key (M, m.finalized) calls := by
+  induction calls with
+  | nil => intro m M _; rfl
+  | cons c cs ih =>
+    intro m M ht
+    cases c with
+    | write q =>
+      by_cases hf : m.finalized = true
+      · have h1 : m.step (.write q) = (m, .panic) := by simp [MAC.step, hf]
+        have h2 : specStep key (M, m.finalized) (.write q) = ((M, m.finalized), .panic) := by simp [specStep, hf]
+        simp only [MAC.runAll, specRunAll, h1, h2]
+        rw [ih m M ht]
+      · obtain ⟨m1, hw, t1⟩ := write_tracks _ _ _ _ (clamped_init key) m.mac M q ht
+        have hf' : m.finalized = false := by simpa using hf
+        have h1 : m.step (.write q) = (⟨m1, m.finalized⟩, .wrote q.length) := by simp [MAC.step, hf', hw]
+        have h2 : specStep key (M, m.finalized) (.write q) = ((M ++ q, false), .wrote q.length) := by
+          simp [specStep, hf']
+        simp only [MAC.runAll, specRunAll, h1, h2]
+        rw [ih ⟨m1, m.finalized⟩ (M ++ q) t1, hf']
+    | sum b =>
+      have hs := sum_tracks_spec key hk m.mac M ht
+      have h1 : m.step (.sum b) = ({ m with finalized := true }, .tag (b ++ tagSpec key M)) := by simp [MAC.step, hs]
+      simp only [MAC.runAll, specRunAll, h1, specStep]
+      rw [ih { m with finalized := true } M ht]
+    | verify e =>
+      have hs := sum_tracks_spec key hk m.mac M ht
+      have h1 : m.step (.verify e) = ({ m with finalized := true }, .ok (decide (e = tagSpec key M))) := by
+        simp [MAC.step, hs, ctEq_decide]
+      simp only [MAC.runAll, specRunAll, h1, specStep]
+      rw [ih { m with finalized := true } M ht]
+
+/-- histories in which the caller recovers from the Write-after-Sum panic and keeps using the MAC: the object is
+    unchanged by the panicking call, later Sum/Verify still answer for the bytes written before -/
+theorem runAll_refines (key : Bytes) (hk : key.length = 32) (calls : List Call) :
+    (new key).runAll calls = specRunAll key ([], false) calls :=
+  runAll_refines_aux key hk calls (new key) [] (tracks_init key)
+
+example : (new (zeros 32)).runAll [.write [1], .sum [], .write [2], .sum [9]]
+    = [.wrote 1, .tag (tagSpec (zeros 32) [1]), .panic, .tag (9 :: tagSpec (zeros 32) [1])] := by
+  rw [runAll_refines _ (by simp [zeros])]
+  simp [specRunAll, specStep]
+
 /-- **history refinement**: for every 32-byte key and every sequence of Write / Sum / Verify calls on one
     `MAC`, the outputs are those of the abstract machine: Sum returns `b ‖ tagSpec(key, bytes written)`,
     Verify accepts exactly that tag, Write after Sum/Verify panics, and nothing else panics. -/
